@@ -12,6 +12,8 @@ pub mod redirector;
 pub mod service;
 pub mod shared_state;
 pub mod telemetry;
+#[cfg(azure_guestproxyagent_verif)]
+pub mod verif;
 
 #[cfg(test)]
 pub mod test_mock;
